@@ -56,7 +56,9 @@ def consts(ctx):
 
 FW = {"T": ({0xC3: b"\x02", 0xC1: b"\x00"}, b"main-firmware-image-bytes-01"),
       "N": ({0xC1: b"\x00"}, b"blob-without-type-tag\x00\x00")}
-OPS = ([("setcfg", c) for c in "ABCDE"] + [("comments", c) for c in "ABCDE"]
+# configurations the encoder cannot represent (a value longer than one length byte, a key beyond 16 bits): the update is refused
+BAD_CFG = {"too-long": {(0x0100, 0x01): bytes(256)}, "key-range": {(0x10000, 0x01): b"\x01"}}
+OPS = ([("setcfg", c) for c in "ABCDE"] + [("setcfg-refused", c) for c in sorted(BAD_CFG)] + [("comments", c) for c in "ABCDE"]
        + [("auth", c, m) for c in "ABCDE" for m in ("cust", "ecc")]
        + [("fw", where, k) for where in ("append", "insert") for k in "TN"] + [("writeread",)])
 
@@ -159,6 +161,14 @@ def step(st, op):
         real = bec.bf3file.components
         if not real or real[-1].description.get(0xC3) != b"\x03":
             o.viol("components|config-not-last", "%s: the configuration component is not last" % what)
+    elif kind == "setcfg-refused":
+        # an update the encoder refuses is no update: the file keeps the configuration (and everything else) it had
+        try:
+            bec.bf3file.set_config(dict(BAD_CFG[op[1]]))
+            return None        # the encoder took it: nothing to say here (C10 decides what can be encoded)
+        except Exception:
+            pass
+        check_components(st, o, what)
     elif kind == "comments":
         cfg = CFG[op[1]]
         bec.bf3file.derive_comments_from_config(st.cfgs[op[1]])
